@@ -730,6 +730,10 @@ func runC07(c *core.Ctx) {
 			"store.mu is released between the index comparison and the hand-out of dataChanged")
 	})
 
+	// an accepted command must be applicable on every replica: Apply is total over the registry and the validator in
+	// front of the proposal decodes the extension Apply will assert (shared with C06 D4)
+	c.Clause("D6", func() { runApplyTotality(c) })
+
 	c.Clause("D4", func() {
 		f := c.Fn(metap + ".(*raftState).apply")
 		info := f.Info()
